@@ -474,4 +474,18 @@ theorem C15_do_parentless (f : Factor) (h : Shaped f) :
       intro a b hab
       exact (List.of_mem_zip hab).1
 
+/-- **every reachable state is structurally consistent** - the three invariants together, for ANY history of the six
+    editing operations from the empty model (valid or invalid arguments, `add_cpds` arguments CPD-shaped): edges join
+    nodes of the graph and form no directed cycle; no node, edge or latent is held twice and latents are nodes; there
+    is at most one CPD per variable, each for a node still in the graph with its child variable in front -/
+theorem C15_reachable_consistent (ops : List BNOp) (hops : ∀ op ∈ ops, op.Shaped) :
+    (BNState.init.run ops).Inv ∧ (BNState.init.run ops).Book ∧ (BNState.init.run ops).CpdInv := by
+  have hinv : ∀ (ops : List BNOp) (s : BNState), s.Inv → (s.run ops).Inv := by
+    intro ops
+    induction ops with
+    | nil => intro s h; exact h
+    | cons op ops ih => intro s h; exact ih _ (C15_step_inv s op h)
+  exact ⟨hinv ops BNState.init ⟨fun e he => (by cases he), acyclic_nil⟩,
+    C15_bookkeeping ops, C15_cpd_bookkeeping ops hops⟩
+
 end PgmVerif
